@@ -385,3 +385,26 @@ Theorem C13_translated_w_full_idx_ok d :
   (d =? 0) || AsyncFifoGen.g_w_full_idx_ok (aceil_log2 d + 1) = async_elab_ok d.
 Proof. exact (GenEqAsyncfifo.gen_w_full_idx_ok_eq d). Qed.
 Print Assumptions C13_translated_w_full_idx_ok.
+
+(* the rest of AsyncFIFO.elaborate as a two-clock step function, regenerated by symbolic execution of its
+   m.d.comb / m.d[self._w_domain] / m.d[self._r_domain] statements (produce / consume counters and Gray registers, w_rdy,
+   r_empty, r_rdy, both FFSynchronizer chains as 2-stage shift registers in the receiving domain, consume_w_bin, w_level,
+   r_level, the memory ports, the AsyncFFSynchronizer flops producing r_rst, the m.If(r_rst) override block, self.r_rst,
+   the synchronous domain resets of the registers that are not reset_less): one event of the generated step on the
+   registers read off the model state (GenEqAsyncfifo.to_g) is the model's async_step, for EVERY state, event and input
+   (including write-domain and read-domain resets). *)
+Theorem C13_translated_async_step n width st e i : 0 <= n ->
+  AsyncFifoGen.g_async_step (n + 1) n (alvl_bits n) width (has_w e) (has_r e)
+    (Z.b2z (i_wen i)) (i_wdata i mod 2 ^ width) (Z.b2z (i_ren i)) (Z.b2z (i_rst i)) (Z.b2z (i_rrst i))
+    (GenEqAsyncfifo.to_g st)
+  = GenEqAsyncfifo.to_g (async_step n width st e i).
+Proof. exact (GenEqAsyncfifo.gen_async_step_eq n width st e i). Qed.
+Print Assumptions C13_translated_async_step.
+
+(* the generated combinational interface outputs (w_rdy, r_rdy, r_level, r_data) are the model's observations (taken, as in
+   arun_step, after the asynchronous effect a_pre of the write-domain reset) *)
+Theorem C13_translated_async_out n width wen wdata ren (rst : bool) rdr st : 0 <= n ->
+  AsyncFifoGen.g_async_out (n + 1) n (alvl_bits n) width wen wdata ren (Z.b2z rst) rdr (GenEqAsyncfifo.to_g st)
+  = (Z.b2z (o_wrdy n (a_pre st rst)), Z.b2z (o_rrdy (a_pre st rst)), o_rlevel n (a_pre st rst), o_rdata (a_pre st rst)).
+Proof. exact (GenEqAsyncfifo.gen_async_out_eq n width wen wdata ren rst rdr st). Qed.
+Print Assumptions C13_translated_async_out.
